@@ -554,6 +554,35 @@ func toV3AdditionalProperties(from openapi3.AdditionalProperties) openapi3.Addit
 	}
 }
 
+// fromV3AdditionalProperties is the inverse of toV3AdditionalProperties: an
+// OpenAPI 2 schema keeps its additionalProperties as an openapi3.SchemaRef,
+// whose references must be in OpenAPI 2 form.
+func fromV3AdditionalProperties(from openapi3.AdditionalProperties) openapi3.AdditionalProperties {
+	return openapi3.AdditionalProperties{
+		Has:    from.Has,
+		Schema: convertRefsInV2SchemaRef(from.Schema),
+	}
+}
+
+func convertRefsInV2SchemaRef(from *openapi3.SchemaRef) *openapi3.SchemaRef {
+	if from == nil {
+		return nil
+	}
+	to := *from
+	to.Ref = FromV3Ref(to.Ref)
+	if to.Ref != "" {
+		// The value of a resolved reference belongs to its target, which is
+		// converted where it is defined (and may lead back here).
+		return &to
+	}
+	if to.Value != nil {
+		v := *from.Value
+		to.Value = &v
+		to.Value.AdditionalProperties = fromV3AdditionalProperties(to.Value.AdditionalProperties)
+	}
+	return &to
+}
+
 func convertRefsInV3SchemaRef(from *openapi3.SchemaRef) *openapi3.SchemaRef {
 	if from == nil {
 		return nil
@@ -920,7 +949,7 @@ func FromV3SchemaRef(schema *openapi3.SchemaRef, components *openapi3.Components
 		MaxProps:             schema.Value.MaxProps,
 		Properties:           make(openapi2.Schemas),
 		AllOf:                make(openapi2.SchemaRefs, len(schema.Value.AllOf)),
-		AdditionalProperties: schema.Value.AdditionalProperties,
+		AdditionalProperties: fromV3AdditionalProperties(schema.Value.AdditionalProperties),
 	}
 
 	if v := schema.Value.Discriminator; v != nil {
